@@ -151,7 +151,8 @@ func (t *TempoController) Tags(w http.ResponseWriter, r *http.Request) {
 		if i != 0 {
 			w.Write([]byte(","))
 		}
-		w.Write([]byte(strconv.Quote(tag)))
+		bTag, _ := json.Marshal(tag)
+		w.Write(bTag)
 		i++
 	}
 	w.Write([]byte("]}"))
@@ -306,7 +307,8 @@ func (t *TempoController) Values(w http.ResponseWriter, r *http.Request) {
 		if i != 0 {
 			w.Write([]byte(","))
 		}
-		w.Write([]byte(strconv.Quote(val)))
+		bVal, _ := json.Marshal(val)
+		w.Write(bVal)
 		i++
 	}
 	w.Write([]byte(`]}`))
